@@ -26,7 +26,7 @@ CMPOPS = {"Eq": "==", "NotEq": "!=", "Lt": "<", "LtE": "<=", "Gt": ">", "GtE": "
 TYPES = {"TObject": "object", "TInt": "int", "TBool": "bool", "TStr": "str", "TTuple": "tuple", "TList": "list",
          "TSet": "set", "TFloat": "float", "TType": "type", "TNoneT": "type(None)"}
 BUILTINS = {"BIsinstance": "isinstance", "BIssubclass": "issubclass", "BHasattr": "hasattr", "BCallable": "callable",
-            "BAny": "any", "BAll": "all", "BSum": "sum", "BMin": "min", "BMax": "max", "BSet": "set", "BLen": "len"}
+            "BAny": "any", "BAll": "all", "BSum": "sum", "BMin": "min", "BMax": "max", "BSet": "set", "BLen": "len", "BBool": "bool"}
 METHS = {"Startswith": "startswith", "Endswith": "endswith"}
 BOPS = {"BOr": " or ", "BAnd": " and "}
 
@@ -317,6 +317,8 @@ def from_ast(n, sole_arg=False):
 def from_source(text: str):
     """tree of `result = <expr>`; raises SyntaxError / NotMiniPy"""
     mod = ast.parse(text)
+    if len(mod.body) == 1 and isinstance(mod.body[0], ast.If):       # the expression as the test of an `if`
+        return from_ast(mod.body[0].test)
     if len(mod.body) != 1 or not isinstance(mod.body[0], ast.Assign):
         raise NotMiniPy("module shape")
     return from_ast(mod.body[0].value)
@@ -556,6 +558,8 @@ def gen_env(rng, profile="mixed"):
             kind = rng.choice(["str", "str", "str", "tuple", "tuple", "int", "bool", "none"])
         elif profile == "num":
             kind = rng.choice(["int", "int", "int", "str", "set", "set", "nan", "bool", "none", "list", "tuple"])
+        elif profile == "seq":
+            kind = rng.choice(["list", "list", "list", "tuple", "tuple", "str", "int", "none", "bool", "set", "nan", "obj"])
         elif profile == "obj":
             kind = rng.choice(["obj", "obj", "obj", "type", "int", "str", "none", "list"])
         else:
@@ -819,10 +823,141 @@ def gen_hasattr(rng):
     attr = S(CALL) if rng.random() < 0.85 else S(rng.choice(["foo", "bar"]))
     e = ("ECall", "BHasattr", [a, attr])
     r = rng.random()
+    if r < 0.06:        # one and three arguments: TypeError in the original
+        e = ("ECall", "BHasattr", [attr])
+    elif r < 0.14:
+        e = ("ECall", "BHasattr", [a, S(rng.choice(["foo", "x"])), attr])
+    r = rng.random()
     if r < 0.1:
         e = ("ECall", "BHasattr", [e, S(CALL)])
     elif r < 0.2:
         e = ("EBool", True, "BAnd", e, ("ECall", "BCallable", [a]))
+    return wrap_context(rng, e)
+
+
+def _level(e):
+    """binding strength of the node's own operator when it stands without parentheses"""
+    return {"EBool": 1 if e[0] == "EBool" and e[2] == "BOr" else 2, "ENot": 3, "ECmp": 4}.get(e[0], 5) if e[0] in ("EBool", "ENot", "ECmp") else 5
+
+
+def minimal_flags(e, need=0):
+    """the same tree printed with only the parentheses Python's precedences need (or < and < not < comparison < atom):
+    `need` is the weakest binding the position accepts"""
+    k = e[0]
+    m = minimal_flags
+    if k in ("EName", "EConst", "EType"):
+        return e
+    if k in ("ETuple", "EList", "ESet"):
+        return (k, [m(x) for x in e[1]])
+    if k == "EMeth":
+        return (k, e[1], e[2], [m(x) for x in e[3]])
+    if k == "ECall":
+        return (k, e[1], [m(x) for x in e[2]])
+    if k == "EBool":
+        lv = 1 if e[2] == "BOr" else 2
+        return (k, lv < need, e[2], m(e[3], lv), m(e[4], lv + 1))
+    if k == "ENot":
+        return (k, 3 < need, m(e[2], 3))
+    if k == "ECmp":
+        return (k, 4 < need, m(e[2], 5), [(o, m(b, 5)) for o, b in e[3]])
+    if k == "EListComp":
+        return (k, m(e[1]), e[2], m(e[3], 1))
+    if k == "EGen":
+        return (k, e[1], m(e[2]), e[3], m(e[4], 1))
+    if k == "EFloorDiv":
+        return (k, m(e[1], 5), m(e[2], 5))
+    return (k, e[1], m(e[2], 5))
+
+
+def gen_empty_seq(rng, top=False):
+    """comparisons with an empty list / tuple display on either side (mostly == and !=), operands of every kind; near misses:
+    other operators, chains, non-empty displays, empty set()/dict-like calls; nested comparisons"""
+    def operand(d=0):
+        r = rng.random()
+        if r < 0.55:
+            return N(rng.randrange(8))
+        if r < 0.65:
+            return rng.choice([I(rng.choice(INTS)), S(rng.choice(STRS)), B(True), NONE])
+        if r < 0.72:
+            return ("EList", [I(1)]) if rng.random() < 0.5 else ("ETuple", [I(1), I(2)])
+        if r < 0.80:
+            return ("ECall", rng.choice(["BLen", "BSet", "BBool"]), [N(rng.randrange(8))])
+        if r < 0.86:
+            return ("EBool", True, rng.choice(["BOr", "BAnd"]), N(rng.randrange(8)), N(rng.randrange(8)))
+        if r < 0.92 and d < 2:
+            return cmp(d + 1)
+        return rng.choice([("EList", []), ("ETuple", [])])
+
+    def cmp(d=0):
+        emp = rng.choice([("EList", []), ("EList", []), ("ETuple", [])])
+        op = rng.choice(["Eq", "Eq", "Eq", "NotEq", "NotEq", "NotEq", "Lt", "Is", "In", "GtE"])
+        x = operand(d)
+        rest = [(op, emp)] if rng.random() < 0.7 else [(op, x)]
+        left = x if rest[0][1] is emp else emp
+        if rng.random() < 0.1:
+            rest.append((rng.choice(["Eq", "NotEq"]), operand(d)))
+        return ("ECmp", True, left, rest)
+    e = cmp()
+    if top and rng.random() < 0.7:
+        return e
+    r = rng.random()
+    if r < 0.15:
+        e = ("ENot", True, e)
+    elif r < 0.3:
+        e = ("EBool", True, rng.choice(["BOr", "BAnd"]), e, cmp())
+    elif r < 0.4:
+        e = ("EFloorDiv", e, I(rng.choice([1, 2, 0])))
+    elif r < 0.5:
+        e = ("ECall", "BLen", [("EList", [e, cmp()])])
+    return e if top else wrap_context(rng, e)
+
+
+def gen_identity(rng):
+    """`x is <literal or new object>` / `is not`, literals of every kind on either side; near misses: is None / True, names,
+    negative ints, len(...) calls, chains; nested comparisons"""
+    def lit():
+        r = rng.random()
+        if r < 0.25:
+            return ("EList", [I(rng.randrange(3)) for _ in range(rng.randint(0, 2))])
+        if r < 0.45:
+            return ("ETuple", [I(rng.randrange(3)) for _ in range(rng.randint(0, 2))])
+        if r < 0.55:
+            return ("ESet", [I(rng.randrange(3))])
+        if r < 0.7:
+            return I(rng.choice([0, 1, 2, 7]))
+        if r < 0.85:
+            return S(rng.choice(STRS))
+        return ("ECall", "BSet", [("EList", [I(1)])] if rng.random() < 0.5 else [])
+
+    def other(d=0):
+        r = rng.random()
+        if r < 0.5:
+            return N(rng.randrange(8))
+        if r < 0.65:
+            return rng.choice([NONE, B(True), B(False), NANC, I(-1)])
+        if r < 0.75:
+            return ("ECall", "BLen", [N(rng.randrange(8))])
+        if r < 0.9 and d < 2:
+            return cmp(d + 1)
+        return lit()
+
+    def cmp(d=0):
+        op = rng.choice(["Is", "Is", "Is", "IsNot", "IsNot", "Eq", "In"])
+        a, b = (other(d), lit()) if rng.random() < 0.6 else (lit(), other(d))
+        if rng.random() < 0.15:
+            b = other(d)
+        rest = [(op, b)]
+        if rng.random() < 0.08:
+            rest.append((rng.choice(["Is", "Eq"]), other(d)))
+        return ("ECmp", True, a, rest)
+    e = cmp()
+    r = rng.random()
+    if r < 0.15:
+        e = ("ENot", True, e)
+    elif r < 0.3:
+        e = ("EBool", True, rng.choice(["BOr", "BAnd"]), e, cmp())
+    elif r < 0.4:
+        e = ("ECall", "BLen", [("EList", [e, cmp()])])
     return wrap_context(rng, e)
 
 
